@@ -127,26 +127,26 @@ def holes_of(sk, s):
     return [s[i] for i, ch in enumerate(sk) if ch in '§¶↵']
 
 
-def body_render(s, fam):
+def body_render(s, fam, pols=None, kbgs=(False, True)):
     sk, exp = FAM[fam]
     h = holes_of(sk, s)
-    for pol in POL:
-        for kbg in (False, True):
+    for pol in (POL if pols is None else pols):
+        for kbg in kbgs:
             want = exp(h, POL[pol], kbg)
             got = l2t(s, pol, kbg)
             require(got == want, 'rendered text differs from the documented rules (family %s, policy %s)' % (fam, pol))
     return True
 
 
-def body_compose(s, la, joiner):
+def body_compose(s, la, joiner, pols=None, kbgs=(False, True)):
     """s = A + joiner + B with A, B self-contained blocks: l2t(s) == l2t(A) + joiner + l2t(B)"""
     a = s[:la]
     b = s[la + len(joiner):]
-    for pol in POL:
+    for pol in (POL if pols is None else pols):
         if joiner == ' ' and not POL[pol]['con']:
             # documented: without strict between-latex-constructs, whitespace-only text between two constructs is dropped
             continue
-        for kbg in (False, True):
+        for kbg in kbgs:
             whole = l2t(s, pol, kbg)
             parts = l2t(a, pol, kbg) + joiner + l2t(b, pol, kbg)
             require(whole == parts, 'conversion of two blocks joined by %r differs from joining their conversions (policy %s)'
@@ -176,16 +176,28 @@ def conditions(tier):
     quick = tier == 'quick'
     T = 900 if quick else 3600
     conds = []
-    for name, sk, exp in FAMILIES:
-        conds.append(Cond('render_' + name, 's: str', sk_pre(sk), 'body_render(s, %r)' % name, timeout=T, cost=len(sk) / 8.0,
+    names = list(POL)
+    for k, (name, sk, exp) in enumerate(FAMILIES):
+        if quick:
+            # one conversion costs ~1 s under the tracer: the default policy plus one rotating policy per family;
+            # keep_braced_groups=True only where a group occurs
+            pols = ('macros', names[1 + k % 3])
+            kbgs = (False, True) if '{' in sk.replace(BS + 'textbf{', '').replace(BS + 'frac{', '') and 'group' in name else (False,)
+            call = 'body_render(s, %r, %r, %r)' % (name, pols, kbgs)
+        else:
+            call = 'body_render(s, %r)' % name
+        conds.append(Cond('render_' + name, 's: str', sk_pre(sk), call, timeout=T, cost=len(sk) / 8.0,
                           twin=False, smoke=[dict(s=fill(sk)), dict(s=sk.replace('§', 'Z').replace('¶', '\t').replace('↵', '\n'))],
-                          descr='skeleton %r under 4 whitespace policies x keep_braced_groups' % sk))
-    pairs = [(a, b) for i, a in enumerate(BLOCKS) for j, b in enumerate(BLOCKS) if (i + 2 * j) % (3 if quick else 1) == 0]
-    for a, b in pairs:
+                          descr='skeleton %r under the whitespace policies x keep_braced_groups' % sk))
+    pairs = [(a, b) for i, a in enumerate(BLOCKS) for j, b in enumerate(BLOCKS) if (i + 2 * j) % (9 if quick else 1) == 0]
+    for n, (a, b) in enumerate(pairs):
         for jn, joiner in (('par', '\n\n'), ('sp', ' ')):
             sk = a + joiner + b
             nm = 'compose_%s_%d_%d' % (jn, BLOCKS.index(a), BLOCKS.index(b))
-            conds.append(Cond(nm, 's: str', sk_pre(sk), 'body_compose(s, %d, %r)' % (len(a), joiner), timeout=T,
+            call = 'body_compose(s, %d, %r)' % (len(a), joiner)
+            if quick:
+                call = 'body_compose(s, %d, %r, %r, (False,))' % (len(a), joiner, ('macros', names[1 + n % 3]))
+            conds.append(Cond(nm, 's: str', sk_pre(sk), call, timeout=T,
                               cost=len(sk) / 8.0, twin=False, smoke=[dict(s=fill(sk))],
                               descr='blocks %r and %r joined by %r' % (a, b, joiner)))
     return conds
@@ -200,10 +212,10 @@ META = dict(
     bounds=dict(quick='41 document families of the core sublanguage (text, groups, formatting macros, symbol macros followed by text / '
                       'macros / empty groups, fractions, roots, accents, specials, comments, paragraph breaks, inline and display math, '
                       'unknown and transparent environments) with content holes = any ASCII letter or digit and whitespace holes = any '
-                      'whitespace character, each rendered under the 4 whitespace policies x keep_braced_groups and compared with a '
-                      'reference written from the class documentation; composition law for every third pair of 9 self-contained blocks '
-                      'joined by a paragraph break and by a space',
-                thorough='all 81 block pairs'),
+                      'whitespace character, each rendered under the default policy and one of the three others (rotating), keep_braced_groups on group families, '
+                      'and compared with a reference written from the class documentation; composition law for every ninth pair of 9 '
+                      'self-contained blocks joined by a paragraph break and by a space',
+                thorough='every family under all 4 policies x keep_braced_groups; all 81 block pairs'),
     stubs=['logging disabled', 'step budget'],
     outside=['fill_text', "math_mode other than 'text' (see C12)", 'list environments and \\item', 'documents outside the families',
              'holes longer than one character'],
